@@ -135,6 +135,15 @@ def generate(rng, tier):
                 doc = b'{"' + body + b'":[1,{"z":2}],"' + want + b'":{"z":3}}'
                 cases.append({"lines": ["ondemand " + rng.choice(["heap", "page"]) + " " + _hex(doc) + " k" + want.hex()],
                               "cls": "escaped-key-before-wanted" if good else "malformed-key-before-wanted", "nontrivial": True, "via": "c10"})
+    # a malformed literal as an array element / member value whose REMAINING bytes would continue the container (`,1,"a"]`): wherever the
+    # decoder gives up, the document must be rejected - the verdict may not depend on what follows the offending bytes
+    for tok in BAD + [b"\t", b"\n", b"\x01"]:
+        for pre in (b"", b"p", b"p" * rng.choice([13, 14, 15, 16]), b"p" * rng.choice([29, 30, 31, 32, 33]), b"\\n" + b"p" * rng.randrange(0, 40)):
+            for rest in (b',1,"a"]', b',1]', b',-2.5e3,{"k":[]},"a"]', b'",1,"a"]'):
+                txt = b'["' + pre + tok + rest
+                cases.append({"lines": ["parse pool " + _hex(txt)], "cls": "malformed-literal-rest-continues", "nontrivial": True, "via": "c03"})
+                txt = b'{"k":"' + pre + tok + b',"j":1,"a":"b"}'
+                cases.append({"lines": ["parse pool " + _hex(txt)], "cls": "malformed-literal-rest-continues", "nontrivial": True, "via": "c03"})
     return cases
 
 
